@@ -20,7 +20,12 @@ def scenario(r):
             data = b"".join(lines)
             cut = r.range(0, len(data)) if data else 0
             items = ["A" + x.hex() for x in (data[:cut], data[cut:]) if x]
-            hosts.append(("h%d" % i, "o", "/".join(items) if items else "-", "-", 0))
+            if r.chance(1, 4):
+                # stdout ends at once, the command keeps running and talks on stderr for a while
+                err = "/".join("A" + (b"e%d-%d\n" % (i, k)).hex() for k in range(r.range(3, 7)))
+                hosts.append(("h%d" % i, "o", "-", err, 0))
+            else:
+                hosts.append(("h%d" % i, "o", "/".join(items) if items else "-", "-", 0))
         else:
             hosts.append(("h%d" % i, b, "-", "-", 0))
         behs += b
